@@ -255,6 +255,61 @@ func c19MRemovePrefix(ents []c19Ent, p string) ([]c19Ent, bool) {
 	return out, len(out) != len(ents)
 }
 
+// c19BatchInfo reports which corners a multi-prefix ReprovideQueue.Enqueue
+// call exercised (reach probes only).
+type c19BatchInfo struct {
+	dup                   bool // a prefix occurs twice in the call
+	coveredByEarlier      bool // a prefix lies under a shorter, earlier prefix of the call
+	absorbsEarlier        bool // a prefix absorbs an entry that an earlier prefix of the same call appended
+	absorbsEarlierNotLast bool // ... while entries that it does not absorb are queued behind that entry: the position shows
+	empty                 bool // the call has several prefixes, one of them the empty prefix
+}
+
+// c19MBatchInfo walks a multi-prefix enqueue through the model, one prefix at
+// a time in argument order.
+func c19MBatchInfo(ents []c19Ent, prefixes []string) c19BatchInfo {
+	var bi c19BatchInfo
+	if len(prefixes) < 2 {
+		return bi
+	}
+	own := map[string]bool{} // entries that exist because of this call
+	for i, p := range prefixes {
+		if p == "" {
+			bi.empty = true
+		}
+		for _, q := range prefixes[:i] {
+			if q == p {
+				bi.dup = true
+			} else if c19IsPrefix(q, p) {
+				bi.coveredByEarlier = true
+			}
+		}
+		absorbing, ownAbsorbed, behind := false, false, false
+		for _, e := range ents {
+			switch {
+			case e.P != p && c19IsPrefix(p, e.P):
+				absorbing = true
+				ownAbsorbed = ownAbsorbed || own[e.P]
+			case absorbing:
+				behind = true
+			}
+		}
+		if ownAbsorbed {
+			bi.absorbsEarlier = true
+			if behind {
+				bi.absorbsEarlierNotLast = true
+			}
+		}
+		var info c19Info
+		next := c19MEnqueue(ents, p, nil, &info)
+		if !info.existed && !info.covered {
+			own[p] = true
+		}
+		ents = next
+	}
+	return bi
+}
+
 func c19Canon(st *c19State) string {
 	var b strings.Builder
 	w := func(ents []c19Ent) {
